@@ -25,12 +25,13 @@ PROPS = {
         ],
     },
     "C03": {
-        "modules": ["Hannibal.Props.C03", "Hannibal.Props.C03Current"],
-        "theorems": ["Hannibal.C03_holds", "Hannibal.C03_current"],
+        "modules": ["Hannibal.Props.C03", "Hannibal.Props.C03Current", "Hannibal.Props.C03Q", "Hannibal.Props.C03QCurrent"],
+        "theorems": ["Hannibal.C03_holds", "Hannibal.C03_current",
+                     "Hannibal.C03q_holds", "Hannibal.C03q_current"],
         "cases": {"quick": {"C03": 1500}, "thorough": {"C03": 20000, "x:C03": 320, "C13": 3000, "C07": 3000}},
         "assumptions": COMMON_ASSUMPTIONS + [
-            "graceful-end clause (monC03q: after an accepted stop and absent failures the actor has ended with "
-            "stopped() by quiescence) is judged on real traces only",
+            "the graceful-end clause (monC03q: after an accepted stop and absent failures the actor has ended with "
+            "stopped() by quiescence) is theorem C03q_holds (no hypothesis)",
         ],
     },
     "C07": {
@@ -65,11 +66,14 @@ PROPS = {
         ],
     },
     "C13": {
-        "modules": ["Hannibal.Props.C13", "Hannibal.Props.C13Current"],
-        "theorems": ["Hannibal.C13_holds", "Hannibal.C13_current"],
+        "modules": ["Hannibal.Props.C13", "Hannibal.Props.C13Current", "Hannibal.Props.C13Q", "Hannibal.Props.C13QCurrent"],
+        "theorems": ["Hannibal.C13_holds", "Hannibal.C13_current",
+                     "Hannibal.C13q_holds", "Hannibal.C13q_current"],
         "cases": {"quick": {"C13": 1500}, "thorough": {"C13": 20000, "x:C13": 320, "C03": 3000}},
         "assumptions": COMMON_ASSUMPTIONS + [
-            "quiescence clauses (monC13q: ends with the stream / on stop / on last drop; every yielded item handled) are judged on real traces only",
+            "the quiescence clauses (monC13q: ends with the stream / on stop / on last drop; every yielded item handled) "
+            "are theorem C13q_holds under WellWired05 and fresh operation ids (opIdsFresh, checked on every real trace; "
+            "witness c13qReuseWitness shows it is needed)",
             "the loop's random tie-break is exercised by seeds and schedules; the model allows both outcomes",
         ],
     },
@@ -223,12 +227,13 @@ PROPS = {
         ],
     },
     "C10": {
-        "modules": ["Hannibal.Props.C10", "Hannibal.Props.C10Current"],
-        "theorems": ["Hannibal.C10_holds", "Hannibal.C10_current"],
+        "modules": ["Hannibal.Props.C10", "Hannibal.Props.C10Current", "Hannibal.Props.C10Q", "Hannibal.Props.C10QCurrent"],
+        "theorems": ["Hannibal.C10_holds", "Hannibal.C10_current",
+                     "Hannibal.C10q_holds", "Hannibal.C10q_current"],
         "cases": {"quick": {"C10": 1500}, "thorough": {"C10": 20000, "x:C10": 320, "C07": 3000}},
         "assumptions": COMMON_ASSUMPTIONS + [
-            "tick/wake-up correspondence and 'all timer tasks ended by quiescence, none leaked' (monC10q) are judged "
-            "on real traces only (executor task census)",
+            "tick/wake-up correspondence and 'all timer tasks ended by quiescence, none leaked' (monC10q) are theorem "
+            "C10q_holds (no hypothesis); on real traces the executor's task census backs the timerEnd events",
             "'exactly k deliveries after k periods on an idle actor': the proved part gives at most (spacing >= period); "
             "'at least' is a liveness clause checked on quiescent real traces by monC10q's arm/tick accounting",
             "virtual clock replaces tokio::time::sleep; the model forbids the clock to jump past an armed deadline "
@@ -247,3 +252,13 @@ PROPS = {
         ],
     },
 }
+
+# CROSS-FAMILY: every single-actor monitor is meaningful on every single-actor trace; each check therefore also
+# runs a slice of all the other single-actor families (a seeded change for C01 was first missed because the
+# C01 family has no handler timeouts).
+SINGLE_ACTOR = ["C01", "C02", "C03", "C04", "C05", "C06", "C07", "C10", "C11", "C12", "C13", "C14", "C15", "C17"]
+for _pid in SINGLE_ACTOR:
+    _c = PROPS[_pid]["cases"]
+    for _fam in SINGLE_ACTOR:
+        _c["quick"].setdefault(_fam, 150)
+        _c["thorough"].setdefault(_fam, 2000)
